@@ -24,6 +24,7 @@ run with the regenerated `closeUnlinks`), then the race of two writers decided b
 Result: `ino <inode class of every handle, in order of first appearance> ring <ring before the race> overlap=<0|1>
 res <s's outcomes> <u's outcomes> final <ring>` – overlap=1: u's descriptor is on another inode than s's, its
 `flock` does not wait. `BLOCKED <token>` when a step of the sequential history could not take its lock.
+`C17.locklifeP …` is the same op with every handle in its own operating-system process on the implementation side.
 -/
 namespace Driver.C17
 open AcraModel AcraModel.KeystoreSec.Conc
@@ -203,6 +204,7 @@ end locklife
 def handle (op : String) (args : List String) : Option String :=
   match op, args with
   | "locklife", [hist, sa, ua] => lockLife hist sa ua
+  | "locklifeP", [hist, sa, ua] => lockLife hist sa ua   -- the same history, one OS process per handle
   | "replay", nr :: rest => do
     let nr ← nr.toNat?
     let (rs, rest) ← takeN nr rest
